@@ -27,6 +27,11 @@ def L0():
     return spec({"b": node(16, 1)}, [], "b")
 
 
+def L5():
+    """supervisor feeding a consumer: at stop() time the consumer's worker is idle (nothing queued in front of _stopping)"""
+    return spec({"b": node(16, 1), "c": node(16, 1)}, [edge("b", "c", comm=1)], "b")
+
+
 def L1(ra=16, rb=16, ca=1, cb=1, cm=1, w=1, jitter="LATEST"):
     return spec({"a": node(ra, ca), "b": node(rb, cb)}, [edge("a", "b", window=w, comm=cm, jitter=jitter)], "b")
 
